@@ -298,10 +298,10 @@ theorem TQ.setFlag (s : St) (b : Bool) : TQ s (s.setFlag b) := ⟨⟨Nat.le_refl
 theorem TQ.runSer (f : SerSt → SerSt) (s : St) : TQ s (runSer f s) := TQ.mk' (runSer_tf f s) (runSer_same f s)
 
 /-- bookkeeping that only touches context fields other than the two timestamp ones, and the log not at all -/
-theorem TInv.upd {s s' : St} (hi : TInv s) (hl : s'.log = s.log) (hp : s'.p = s.p)
+theorem TInv.upd {s s' : St} (hi : TInv s) (hl : s'.log = s.log) (hp : s'.p.clock = s.p.clock)
     (hc : s'.c.curLastEventTs = s.c.curLastEventTs) : TInv s' :=
   ⟨by rw [hl, hp]; exact hi.ts, by rw [hc, hp]; exact hi.cur, by rw [hl]; exact hi.sorted⟩
-theorem TInv2.upd {s s' : St} (hi : TInv2 s) (hl : s'.log = s.log) (hp : s'.p = s.p)
+theorem TInv2.upd {s s' : St} (hi : TInv2 s) (hl : s'.log = s.log) (hp : s'.p.clock = s.p.clock)
     (hc : s'.c.curLastEventTs = s.c.curLastEventTs) : TInv2 s' :=
   ⟨hi.1.upd hl hp hc, by rw [hl, hc]; exact hi.2⟩
 /-- logging an event that is not a timestamp write -/
@@ -468,5 +468,166 @@ theorem closePacket_t (cfg : Cfg) (d : DST) (s : St) (hwf : ClockWF d)
     · intro hu hi
       obtain ⟨h1, h2⟩ := pb hu hi
       exact (closeGuarded_t cfg d _ _).2 h1 h2
+
+
+theorem cbEnter_tq (k : CbKind) (s : St) : TQ s (cbEnter k s) := TQ.mk' (cbEnter_tf k s) (cbEnter_same k s)
+theorem cbFull_tq (s : St) : TQ s (cbFull s).2 := TQ.mk' (cbFull_tf s) (cbFull_same s)
+theorem deliverAndSwap_tq (w : Bool) (n : Nat) (s : St) : TQ s (deliverAndSwap w n s) :=
+  TQ.mk' (deliverAndSwap_tf w n s) (deliverAndSwap_same w n s)
+
+theorem cbOpen_t (cfg : Cfg) (d : DST) (s : St) (hwf : ClockWF d) (hw : (cbOpen cfg d s).p.clock < clkW d) :
+    (s.c.useCurLastEventTs = false → TInv s → TInv (cbOpen cfg d s)) ∧
+    (s.c.useCurLastEventTs = true → TInv2 s → TInv2 (cbOpen cfg d s)) := by
+  unfold cbOpen at hw ⊢
+  split
+  · exact ⟨fun _ h => h, fun _ h => h⟩
+  · rename_i hh
+    simp only [hh, if_false] at hw
+    simp only
+    have hq := cbEnter_tq .open_ s
+    generalize cbEnter .open_ s = s1 at hq hw
+    obtain ⟨pa, pb⟩ := openPacket_t cfg d s1.openArgsNow s1.bumpOpen hwf hw
+    constructor
+    · intro hu hi
+      have := pa (by show s1.c.useCurLastEventTs = false; rw [hq.fr.useCur]; exact hu) ((hq.inv hi).upd rfl rfl rfl)
+      exact this.evq _ (fun _ _ h => by cases h)
+    · intro hu hi
+      have := pb (by show s1.c.useCurLastEventTs = true; rw [hq.fr.useCur]; exact hu) ((hq.inv2 hi).upd rfl rfl rfl)
+      exact this.evq _ (fun _ _ h => by cases h)
+
+theorem cbClose_t (cfg : Cfg) (d : DST) (s : St) (hwf : ClockWF d) (hw : (cbClose cfg d s).p.clock < clkW d) :
+    (s.c.useCurLastEventTs = false → TInv s → TInv (cbClose cfg d s)) ∧
+    (s.c.useCurLastEventTs = true → TInv2 s → TInv2 (cbClose cfg d s)) := by
+  unfold cbClose at hw ⊢
+  split
+  · exact ⟨fun _ h => h, fun _ h => h⟩
+  · rename_i hh
+    simp only [hh, if_false] at hw
+    simp only
+    have hq := cbEnter_tq .close s
+    generalize cbEnter .close s = s1 at hq hw
+    have hd := deliverAndSwap_tq s1.c.packetIsOpen s1.p.closeCount (closePacket cfg d s1.bumpClose)
+    have hb : (closePacket cfg d s1.bumpClose).p.clock < clkW d := Nat.lt_of_le_of_lt hd.fr.clock hw
+    obtain ⟨pa, pb⟩ := closePacket_t cfg d s1.bumpClose hwf hb
+    constructor
+    · intro hu hi
+      exact hd.inv (pa (by show s1.c.useCurLastEventTs = false; rw [hq.fr.useCur]; exact hu) ((hq.inv hi).upd rfl rfl rfl))
+    · intro hu hi
+      exact hd.inv2 (pb (by show s1.c.useCurLastEventTs = true; rw [hq.fr.useCur]; exact hu) ((hq.inv2 hi).upd rfl rfl rfl))
+
+/-- frame facts of the functions of `_reserve_er_space`, which leave `use_cur_last_event_ts` at 0 -/
+structure TFrame0 (s s' : St) : Prop where
+  clock : s.p.clock ≤ s'.p.clock
+  useCur : s'.c.useCurLastEventTs = false
+  cur : s'.c.curLastEventTs = s.c.curLastEventTs
+
+theorem TFrame.to0 {s s' : St} (h : TFrame s s') (hu : s.c.useCurLastEventTs = false) : TFrame0 s s' :=
+  ⟨h.clock, h.useCur.trans hu, h.cur⟩
+theorem TFrame0.trans {a b c : St} (h1 : TFrame0 a b) (h2 : TFrame0 b c) : TFrame0 a c :=
+  ⟨Nat.le_trans h1.clock h2.clock, h2.useCur, h2.cur.trans h1.cur⟩
+theorem TFrame0.after {a b c : St} (h1 : TFrame a b) (h2 : TFrame0 b c) : TFrame0 a c :=
+  ⟨Nat.le_trans h1.clock h2.clock, h2.useCur, h2.cur.trans h1.cur⟩
+
+theorem withUseCur_tf0 (f : St → St) (hf : ∀ s, TFrame s (f s)) (s : St) : TFrame0 s (withUseCur f s) := by
+  unfold withUseCur
+  have := hf (s.setUseCur true)
+  exact ⟨this.clock, rfl, this.cur⟩
+
+theorem withUseCur_t (d : DST) (f : St → St)
+    (hf : ∀ s, (f s).p.clock < clkW d → s.c.useCurLastEventTs = true → TInv2 s → TInv2 (f s))
+    (s : St) (hw : (withUseCur f s).p.clock < clkW d) (hi : TInv2 s) : TInv2 (withUseCur f s) := by
+  unfold withUseCur at hw ⊢
+  exact (hf (s.setUseCur true) hw rfl (hi.upd rfl rfl rfl)).upd rfl rfl rfl
+
+theorem noSpace_tq (cf : Bool) (s : St) : TQ s (noSpace cf s).2 := by
+  unfold noSpace
+  exact ⟨⟨Nat.le_refl _, rfl, rfl⟩, (Ext.ev s (.discard cf) (fun _ _ h => by cases h)).trans (Ext.of_log_eq rfl)⟩
+
+theorem reopenAfterClose_tf0 (cfg : Cfg) (d : DST) (s : St) (hu : s.c.useCurLastEventTs = false) :
+    TFrame0 s (reopenAfterClose cfg d s).2 := by
+  unfold reopenAfterClose
+  simp only
+  have h1 := cbFull_tq s
+  split
+  · exact (h1.trans (noSpace_tq _ _)).fr.to0 hu
+  · exact TFrame0.after h1.fr (withUseCur_tf0 (cbOpen cfg d) (cbOpen_tf cfg d) _)
+
+theorem reopenAfterClose_t (cfg : Cfg) (d : DST) (s : St) (hwf : ClockWF d)
+    (hw : (reopenAfterClose cfg d s).2.p.clock < clkW d) (hi : TInv2 s) : TInv2 (reopenAfterClose cfg d s).2 := by
+  unfold reopenAfterClose at hw ⊢
+  simp only at hw ⊢
+  have h1 := cbFull_tq s
+  split
+  · exact (noSpace_tq _ _).inv2 (h1.inv2 hi)
+  · rename_i hf
+    simp only [hf, if_false] at hw
+    exact withUseCur_t d (cbOpen cfg d) (fun s hw hu h => (cbOpen_t cfg d s hwf hw).2 hu h) _ hw (h1.inv2 hi)
+
+theorem reserveTail_tf0 (cfg : Cfg) (d : DST) (erSize : Nat) (s : St) (hu : s.c.useCurLastEventTs = false) :
+    TFrame0 s (reserveTail cfg d erSize s).2 := by
+  unfold reserveTail
+  split
+  · exact (TFrame.refl s).to0 hu
+  · split
+    · have h1 := withUseCur_tf0 (cbClose cfg d) (cbClose_tf cfg d) s
+      exact h1.trans (reopenAfterClose_tf0 cfg d _ h1.useCur)
+    · exact (TFrame.refl s).to0 hu
+
+theorem reserveTail_t (cfg : Cfg) (d : DST) (erSize : Nat) (s : St) (hwf : ClockWF d)
+    (hw : (reserveTail cfg d erSize s).2.p.clock < clkW d) (hi : TInv2 s) :
+    TInv2 (reserveTail cfg d erSize s).2 := by
+  unfold reserveTail at hw ⊢
+  split
+  · exact hi
+  · rename_i hh
+    simp only [hh, if_false] at hw
+    split
+    · rename_i hc
+      simp only [hc, if_true] at hw
+      have h0 := withUseCur_tf0 (cbClose cfg d) (cbClose_tf cfg d) s
+      have hb : (withUseCur (cbClose cfg d) s).p.clock < clkW d :=
+        Nat.lt_of_le_of_lt (reopenAfterClose_tf0 cfg d _ h0.useCur).clock hw
+      have h1 := withUseCur_t d (cbClose cfg d) (fun s hw hu h => (cbClose_t cfg d s hwf hw).2 hu h) s hb hi
+      exact reopenAfterClose_t cfg d _ hwf hw h1
+    · exact hi
+
+theorem reserve_tf0 (cfg : Cfg) (d : DST) (erSize emptySize : Nat) (s : St) (hu : s.c.useCurLastEventTs = false) :
+    TFrame0 s (reserve cfg d erSize emptySize s).2 := by
+  unfold reserve
+  split
+  · exact (noSpace_tq _ _).fr.to0 hu
+  · split
+    · simp only
+      have h1 := cbFull_tq s
+      split
+      · exact (h1.trans (noSpace_tq _ _)).fr.to0 hu
+      · have h2 := withUseCur_tf0 (cbOpen cfg d) (cbOpen_tf cfg d) (cbFull s).2
+        exact TFrame0.after h1.fr (h2.trans (reserveTail_tf0 cfg d erSize _ h2.useCur))
+    · exact reserveTail_tf0 cfg d erSize s hu
+
+theorem reserve_t (cfg : Cfg) (d : DST) (erSize emptySize : Nat) (s : St) (hwf : ClockWF d)
+    (hw : (reserve cfg d erSize emptySize s).2.p.clock < clkW d) (hi : TInv2 s) :
+    TInv2 (reserve cfg d erSize emptySize s).2 := by
+  unfold reserve at hw ⊢
+  split
+  · exact (noSpace_tq _ _).inv2 hi
+  · rename_i h1
+    simp only [h1, if_false] at hw
+    split
+    · rename_i h2
+      simp only [h2, if_true] at hw ⊢
+      have q1 := cbFull_tq s
+      split
+      · exact (noSpace_tq _ _).inv2 (q1.inv2 hi)
+      · rename_i h3
+        simp only [h3, if_false] at hw
+        have h0 := withUseCur_tf0 (cbOpen cfg d) (cbOpen_tf cfg d) (cbFull s).2
+        have hb : (withUseCur (cbOpen cfg d) (cbFull s).2).p.clock < clkW d :=
+          Nat.lt_of_le_of_lt (reserveTail_tf0 cfg d erSize _ h0.useCur).clock hw
+        have h4 := withUseCur_t d (cbOpen cfg d) (fun s hw hu h => (cbOpen_t cfg d s hwf hw).2 hu h) _ hb (q1.inv2 hi)
+        exact reserveTail_t cfg d erSize _ hwf hw h4
+    · rename_i h2
+      simp only [h2, if_false] at hw
+      exact reserveTail_t cfg d erSize s hwf hw hi
 
 end BVM
